@@ -145,19 +145,21 @@ pub fn types() -> Vec<TypeEntry> {
 pub type ParseFn = fn(&[u8]) -> Result<String, ZVTError>;
 pub type ParseQuietFn = fn(&[u8]) -> Result<(), ZVTError>;
 /// read up to n packets from a byte stream through `PacketTransport::read_packet::<Enum>`: per read Ok(Debug) / Err(text)
-pub type ReadFn = fn(Vec<u8>, usize) -> Vec<Result<String, String>>;
+pub type ReadFn = fn(Vec<u8>, usize, Option<usize>) -> Vec<Result<String, String>>;
 pub struct EnumEntry {
     pub name: &'static str,
     pub parse: ParseFn,
     pub quiet: ParseQuietFn,
     pub read: ReadFn,
 }
-fn read_n<T: ZvtParser + std::fmt::Debug + Send>(data: Vec<u8>, n: usize) -> Vec<Result<String, String>> {
+fn read_n<T: ZvtParser + std::fmt::Debug + Send>(data: Vec<u8>, n: usize, interrupt_at: Option<usize>) -> Vec<Result<String, String>> {
     let mut tr = zvt::io::PacketTransport { source: crate::peer::Peer::preloaded(data, vec![], None) };
+    tr.source.interrupt_at = interrupt_at;
     (0..n).map(|_| futures::executor::block_on(tr.read_packet::<T>()).map(|v| format!("{v:?}")).map_err(|e| format!("{e:#}"))).collect()
 }
-fn read_ack(data: Vec<u8>, n: usize) -> Vec<Result<String, String>> {
+fn read_ack(data: Vec<u8>, n: usize, interrupt_at: Option<usize>) -> Vec<Result<String, String>> {
     let mut tr = zvt::io::PacketTransport { source: crate::peer::Peer::preloaded(data, vec![], None) };
+    tr.source.interrupt_at = interrupt_at;
     (0..n)
         .map(|_| {
             futures::executor::block_on(tr.read_packet::<zvt::io::Ack>())
